@@ -230,6 +230,8 @@ def _plane_family(case, rec):
 def _uniform_cases(tier):
     out = [{"fam": f, "n": n} for f in ("ngon", "prism", "antiprism") for n in range(3, 201)]
     out += [{"fam": f, "n": n} for f in ("pyramid", "dipyramid") for n in (3, 4, 5)]
+    out += [{"fam": f, "n": n, "ntype": t} for f in ("ngon", "prism", "antiprism") for n in (3, 4, 7, 12, 50) for t in ("int64", "int32")]
+    out += [{"fam": f, "n": n, "ntype": "int64"} for f in ("pyramid", "dipyramid") for n in (3, 4, 5)]
     return out
 
 
@@ -255,7 +257,12 @@ def _uniform(case, rec):
     rec.nontrivial = n >= 33 or fam in ("pyramid", "dipyramid")
     with warnings.catch_warnings():
         warnings.simplefilter("ignore")
-        res = call(cls.get_shape, n)
+        # the count may be a Python int or a numpy integer (np.arange yields those); both mean the same n
+        ntype = case.get("ntype", "int")
+        res = call(cls.get_shape, {"int": int, "int64": np.int64, "int32": np.int32}[ntype](n))
+    if ntype != "int":
+        sig["n_as"] = ntype
+        rec.label("n_as:" + ntype)
     if n < 3:
         rec.nontrivial = True
         rec.check(isinstance(res, Raised) and res.type == "ValueError", "n_below_3_raises_ValueError", sig, n=n, got=repr(res)[:80])
@@ -335,6 +342,10 @@ def _first_call_cases(tier):
     # one family's first call must not matter to a sibling either (they share the base class machinery)
     out.append({"fam": "mixed", "seq": [["int", [1, 3], "423"], ["float", [1.5, 2.5], "323"], ["float", [1.3, 2.9], "523"], ["float", [0.4], "trunc"]]})
     out.append({"fam": "mixed", "seq": [["int", [1], "trunc"], ["float", [1.5, 2.5], "423"], ["int", [1, 3], "523"], ["float", [2.25, 1.125], "323"]]})
+    # the same parameter values asked of different families in turn (the answer belongs to the family, not to the numbers)
+    out.append({"fam": "mixed", "seq": [["float", [1.2, 2.8], "423"], ["float", [1.2, 2.8], "523"], ["float", [1.2, 2.8], "323"], ["float", [1.2, 2.8], "423"]]})
+    out.append({"fam": "mixed", "seq": [["float", [1.3, 2.7], "523"], ["float", [1.3, 2.7], "323"], ["float", [1.3, 2.7], "423"]]})
+    out.append({"fam": "mixed", "seq": [["int", [1, 3], "323"], ["int", [1, 3], "423"], ["int", [1, 3], "523"]]})
     return out
 
 
@@ -376,7 +387,7 @@ def clauses():
     cl.append(Clause("uniform_families", None, _uniform, quick=0, thorough=0, enumerate_cases=_uniform_cases,
                      rule="n = 3..200 exhaustively for n-gon/prism/antiprism, n in {3,4,5} for pyramid/dipyramid", floors={}))
     cl.append(Clause("first_calls_in_a_fresh_process", None, _first_calls, quick=0, thorough=0, enumerate_cases=_first_call_cases,
-                     rule="19 call sequences mixing integer- and float-typed parameters and families, one fresh interpreter each", floors={}))
+                     rule="22 call sequences mixing integer- and float-typed parameters and families, one fresh interpreter each", floors={}))
     return cl
 
 
